@@ -708,6 +708,19 @@ func (lw *loopWorld) peer(f []string) {
 				waitReady(lw.rawFd(o), unix.POLLIN, 200)
 			}
 		}
+	case "packetmode":
+		// the writer's end of the FIFO switches to packet mode (O_DIRECT, pipe(7)): every write is a packet, a read returns one
+		// packet at a time — a descriptor that keeps message boundaries, so that reads come back short while more is queued
+		if o.kind != "fifo" || o.peerFd < 0 {
+			res = "fail"
+		} else if fl, err := unix.FcntlInt(uintptr(o.peerFd), syscall.F_GETFL, 0); err != nil {
+			res = "fail"
+		} else if _, err := unix.FcntlInt(uintptr(o.peerFd), syscall.F_SETFL, fl|syscall.O_DIRECT); err != nil {
+			res = "fail"
+		} else {
+			// a packet occupies a whole pipe buffer (16 by default): room for 256 packets
+			_, _ = unix.FcntlInt(uintptr(o.peerFd), unix.F_SETPIPE_SZ, 1<<20)
+		}
 	case "close":
 		if o.kind == "fifo" || o.kind == "fifow" {
 			if o.peerFd >= 0 {
@@ -1447,6 +1460,13 @@ func loopEnum(args []string, w *bufio.Writer) {
 	// more queued connections than the limit: the chain nests 32 callbacks, the 33rd accept is deferred
 	emit("obj 1 listener", strings.Repeat("peer 1 connect\n", 40), "accept 1 op=11 chain=45", "pending", "poll", "poll", "pending")
 	emit("obj 1 packet", strings.Repeat("peer 1 send 4\n", 40), "recvfrom 1 8 op=11 chain=45", "pending", "poll", "poll", "pending")
+	// a descriptor that keeps message boundaries behind the file type (FIFO in packet mode): every read completes at once and
+	// short (one packet) while more is queued
+	for _, n := range []int{34, 40, 70} {
+		emit("obj 1 fifo", "peer 1 packetmode", strings.Repeat("peer 1 write 4\n", n), fmt.Sprintf("read 1 16 op=11 chain=%d", n+5), "pending", "poll", "poll", "pending")
+		emit("obj 1 fifo", "obj 2 tcp", "peer 1 packetmode", strings.Repeat("peer 1 write 3\n", n), "peer 2 write 200", fmt.Sprintf("read 1 8 op=11 chain=%d then=read_2_4_op=77", n-2),
+			"pending", "poll", "poll", "pending")
+	}
 	// a chain of one kind that reaches the limit exactly, then an operation of another kind from the innermost callback
 	for _, then := range []string{"accept_2_op=77", "recvfrom_3_8_op=77", "sendto_3_4_op=77", "write_4_3_op=77", "read_4_3_op=77"} {
 		for _, n := range []int{30, 31, 32} {
